@@ -113,13 +113,13 @@ LEVEL_TEXT = ("Machine-checked proof about a model, tied to the code. (1) For ev
               "input history over all 2^33 (valid, dw0) words: the model of TimestampPacketReceiver outputs exactly the "
               "specification -- ready iff a timestamp packet is offered, update one cycle after each timestamp packet, counter/"
               "delta = the full 14-/13-bit fields of the latest timestamp packet (C47_itp_decodes_in_full, C47_itp_reported); "
-              "with the 1-bit registers the code declares the model provably fails the specification "
+              "with the 1-bit registers the code originally declared the model provably fails the specification "
               "(C47_one_bit_registers_refuted). (2) The netlist regenerated from /repo is proved equal to the specification on "
               "every trace (any length) over 396 representative input words (C47_netlist_meets_spec, certified product "
               "reachability), and compared with the model on full-width random words (correspondence, not a proof).")
-LEVEL_NOTE = ("The unchanged tree VIOLATES the property: both outputs are declared Signal() (1 bit), so only bit 0 of each field is "
-              "reported (findings/C47-onebit.json, candidate patch findings/C47-onebit.diff); the check exits 1 on the unchanged tree "
-              "and 0 with the patch. The R tie quantifies over a finite representative alphabet, not over all 2^33 words "
+LEVEL_NOTE = ("Defect found by this check in the tree as first examined: both outputs were declared Signal() (1 bit), so only bit 0 of each "
+              "field was reported (findings/C47-onebit.json, patch findings/C47-onebit.diff); fixed in /repo by commit c2e032e -- the "
+              "check exits 1 before that commit and 0 on the current tree. The R tie quantifies over a finite representative alphabet, not over all 2^33 words "
               "(the data path is 27 independent wires; the walking-one words exercise each). "
               "Trusted: Coq kernel + vm_compute, Amaranth elaboration, nir2coq.py/Netlist.v (validated each run against pysim).")
 TECHNIQUE = ("Rocq proof: history-indexed specification + invariant induction (all widths >= 14/13), refutation witness for the "
